@@ -363,13 +363,28 @@ def check_marker_sentinel(ctx, F):
         consts = set()
         RH = (('f', 'heads'), ('f', 'remainders'))
         for r in paths2 or []:
+            pre = {}
+            for e in r.events:
+                if e['kind'] == 'loop_enter':
+                    for pth, val in e['pre'].items():
+                        pre[(e['head'], pth)] = val
+
+            def is_head(a):
+                # the loop variable is the remainders head itself, or a local that was initialised with it (a by-value copy
+                # handed to an extracted helper)
+                if not (isinstance(a, tuple) and a and a[0] == 'loop'):
+                    return False
+                if tuple(a[2][-2:]) == RH:
+                    return True
+                v0 = pre.get((a[1], a[2]))
+                return isinstance(v0, tuple) and v0 and v0[0] == 'in' and tuple(v0[1][-2:]) == RH
             for t, v, _ in r.preds:
                 if not (isinstance(t, tuple) and t and t[0] == 'bin' and t[1].split('.')[0] in ('Ne', 'Eq', 'Lt', 'Le', 'Gt', 'Ge')):
                     continue
                 for a, c in ((t[2], t[3]), (t[3], t[2])):
-                    if isinstance(a, tuple) and a[0] == 'loop' and tuple(a[2][-2:]) == RH and isinstance(c, tuple) and c[0] == 'k':
+                    if is_head(a) and isinstance(c, tuple) and c[0] == 'k':
                         consts.add(c[1])
-                    elif isinstance(a, tuple) and a[0] == 'loop' and tuple(a[2][-2:]) == RH and pow2.p2(c) is not None:
+                    elif is_head(a) and pow2.p2(c) is not None:
                         consts.add('2^..: ' + pow2.p2(c).show())
         if len(seeds) != 1 or '?' in seeds or len(consts) != 1:
             ctx.unresolved('R4', role, CHAIN, 'importer seeds %s, exporter compares the head with %s' % (sorted(seeds), sorted(consts)), key=key)
@@ -553,6 +568,144 @@ def method_of(F, name):
     return out[0] if out else None
 
 
+def check_refused_export_untouched(ctx, F):
+    """A consuming export that refuses (`Err(CoderError::Frontend(self))`: the coder does not hold whole words, the head is not
+    aligned) hands the coder back so that the caller can carry on with it.  It must hand back the coder *as it was*: the
+    refusal is decided before the first word is moved, and nothing has been written through `self` on that exit."""
+    n = 0
+    for b in F.bodies:
+        if b.promoted is not None or b.self_adt != CHAIN or b.dk != 'AssocFn' or '::tests::' in b.defpath or b.vis != 'pub' or b.receiver_kind() not in ('self', 'mut self'):
+            continue
+        ev, paths = rules.evaluate(b)
+        if not paths:
+            continue
+        key = 'R1/refused-export-untouched/' + b.defpath
+        role = 'a refused export hands the coder back as it was'
+        exits = []
+        for r in paths:
+            if r.end != 'return' or r.ret is None or rules.ret_shape(r.ret)[0] != 'Err':
+                continue
+            fr = [x for x in sym.subterms(r.ret) if isinstance(x, tuple) and x and x[0] == 'agg' and isinstance(x[1], tuple) and x[1][0] == 'adt' and x[1][2] == 'Frontend' and x[2]]
+            if not fr:
+                continue
+            payload = fr[0][2][0]
+            if not sym.contains(payload, lambda x: x == ('arg', 1) or (isinstance(x, tuple) and x and x[0] in ('in', 'loop', 'post') and ((x[0] == 'in' and x[1][0] == 1) or (x[0] != 'in' and x[2][0] == 1)))):
+                continue        # the error does not carry the coder
+            dirty = [e for e in r.events if (e['kind'] == 'write' and e['path'][0] == 1) or (e['kind'] == 'call' and e.get('uid') is not None and any(p and p[0] == 1 for p in e['mut_paths']))]
+            changed = payload != ('arg', 1) and payload != ('in', (1,))
+            exits.append((dirty, changed, payload))
+        if not exits:
+            continue
+        n += 1
+        ctx.touch(b)
+        bad = [x for x in exits if x[0] or x[1]]
+        if bad:
+            d, ch, pl = bad[0]
+            what = (('after ' + (d[0]['callee'].split('::')[-1] if d[0]['kind'] == 'call' else 'an assignment to ' + sym.path_str(d[0]['path']))) if d else 'as %s' % sym.show(pl)[:60])
+            ctx.bad('R1', role, b.defpath, 'a refusing exit hands the coder back %s: words of the remainders head have already been moved to the other backend, so a caller that carries on decoding with the returned coder cuts later chunks from the wrong words' % what, key=key, loc=rules.loc(b))
+        else:
+            ctx.ok('R1', role, b.defpath, '%d refusing exit(s) return the untouched `self`' % len(exits), key=key)
+    ctx.extra['consuming_exports_that_can_refuse'] = n
+
+
+def _const_at3(t, S, W, P):
+    """value of a term over State::BITS, Word::BITS and PRECISION (None if it mentions anything else)."""
+    import props.C18 as c18
+    t = c18.peel(t)
+    if sym.is_int(t):
+        return t[1]
+    if not isinstance(t, tuple) or not t:
+        return None
+    if t[0] in ('c', 'cparam'):
+        nm = str(t[1])
+        if 'State' in nm and 'BITS' in nm:
+            return S
+        if 'Word' in nm and 'BITS' in nm:
+            return W
+        if nm.endswith('PRECISION'):
+            return P
+        return None
+    if t[0] == 'cast':
+        return _const_at3(t[2], S, W, P)
+    if t[0] == 'bin':
+        x, y = _const_at3(t[2], S, W, P), _const_at3(t[3], S, W, P)
+        if x is None or y is None:
+            return None
+        op = t[1].split('.')[0]
+        return {'Add': x + y, 'Sub': x - y, 'Mul': x * y}.get(op, (x // y) if op == 'Div' and y else None)
+    return None
+
+
+def check_heads_ctor_fill(ctx, F):
+    """The constructor of the heads fills the remainders head until it reaches its lower bound 2^(S - W - PRECISION), one word at
+    a time: every loop that reads words into the head is controlled by that threshold test (as the refill in the coding steps
+    is).  A loop that reads a *precomputed number* of words instead is evaluated over the admitted configurations: starting
+    from the marker bit, 1 + n * Word::BITS bits must stay below the upper bound State::BITS - PRECISION of the head."""
+    from vlib import effects
+    AGG_HEADS = 'stream::chain::ChainCoderHeads'
+    key = 'R6/heads-ctor-fill/' + AGG_HEADS
+    role = 'the head constructor reads words under the threshold test only'
+    bs = [b for b in F.bodies if b.promoted is None and b.name == 'new' and b.self_adt == AGG_HEADS and b.dk == 'AssocFn']
+    if not bs:
+        return ctx.unresolved('R6', role, AGG_HEADS, 'constructor not found', key=key)
+    b = bs[0]
+    ctx.touch(b)
+    ev, paths = rules.evaluate(b)
+    if not paths:
+        return ctx.unresolved('R6', role, b.defpath, 'not evaluated', key=key)
+    is_read = lambda e: e['kind'] == 'call' and e['callee'].endswith('ReadWords::read')
+    reading = {}      # loop head -> threshold-controlled?
+    for r in paths:
+        if r.end != 'backedge':
+            continue
+        les = [(i, e) for i, e in enumerate(r.events) if e['kind'] == 'loop_enter']
+        if not les:
+            continue
+        i0, le = les[-1]
+        if not any(is_read(e) for e in r.events[i0:]):
+            continue
+        thr = False
+        for t, v, _ in r.preds:
+            c = pow2.below_pow2(t, v, lambda x: pow2.bits_of('State'))
+            if c is not None and c[2] and isinstance(c[0], tuple) and c[0] and c[0][0] == 'loop' and c[0][1] == le['head']:
+                thr = True
+        reading[le['head']] = reading.get(le['head'], True) and thr
+    if not reading:
+        return ctx.unresolved('R6', role, b.defpath, 'no loop reads words', key=key)
+    counted = [h for h, ok in reading.items() if not ok]
+    if not counted:
+        return ctx.ok('R6', role, b.defpath, '%d reading loop(s), each iteration under `head < 2^E`' % len(reading), key=key)
+    # counted loops: evaluate the trip count over the admitted configurations
+    trips = {}
+    for r in paths:
+        for e in r.events:
+            if e['kind'] == 'loop_enter' and e['head'] in counted:
+                for pth, v in e['pre'].items():
+                    if v[0] == 'call' and 'into_iter' in v[1]:
+                        try:
+                            trips[e['head']] = effects.IterModel(r).length(v)
+                        except Exception:
+                            trips[e['head']] = None
+    for h in counted:
+        T = trips.get(h)
+        if T is None:
+            return ctx.unresolved('R6', role, b.defpath, 'a loop reads words into the head without the threshold test and its trip count is not recognised', key=key)
+        for W in (8, 16, 32, 64):
+            for S in (2 * W, 4 * W, 8 * W):
+                if S > 128:
+                    continue
+                for P in sorted({1, W // 2, W - 1, W}):
+                    if S < W + P:
+                        continue
+                    n = _const_at3(T, S, W, P)
+                    if n is None:
+                        return ctx.unresolved('R6', role, b.defpath, 'the trip count %s is not a function of the type parameters' % sym.show(T)[:60], key=key)
+                    if 1 + max(n, 0) * W > S - P:
+                        return ctx.bad('R6', role, b.defpath, 'a loop reads a precomputed number of words (%s) on top of the marker bit: for Word = %d, State = %d, PRECISION = %d that is %d word(s), i.e. %d bits, more than the head may hold (State::BITS - PRECISION = %d): one word too many is swallowed, every later chunk is shifted by a word and the coder runs out of data early' % (
+                            sym.show(T)[:60], W, S, P, n, 1 + n * W, S - P), key=key, loc=rules.loc(b))
+    ctx.ok('R6', role, b.defpath, 'counted reading loop(s) stay below the upper bound of the head in every admitted configuration', key=key)
+
+
 def check_no_stale_heads(ctx, F):
     """A function that consumes a chain coder and hands back a coder (the precision changers, the conversions) builds the
     result from the coder *as it is at that point*: when a `&mut self` helper ran on the way (a refill or a flush of the
@@ -598,6 +751,8 @@ def run(ctx):
     F = ctx.F
     check_out_of_data(ctx, F)
     check_no_stale_heads(ctx, F)
+    check_heads_ctor_fill(ctx, F)
+    check_refused_export_untouched(ctx, F)
     check_precision_changers(ctx, F)
     check_heads_closed(ctx, F)
     check_marker_sentinel(ctx, F)
